@@ -160,7 +160,10 @@ Definition visit (inum parent : N) (st : walk_st) : walk_st * list (N * N) :=
                | Some pb => if all_zero (dropN (i_size ip mod BS) (rd d pb)) then [] else [ETailNonZero inum]
                | None => [] end) in
     let o := {| ab_kind := i_kind ip; ab_gen := i_gen ip; ab_size := i_size ip;
-                ab_chunks := map (fun p => (fst p, rd d (snd p))) leaves; ab_ents := []; ab_parent := parent;
+                (* blocks past the size belong to an unfinished shrink: no client can see them *)
+                ab_chunks := map (fun p => (fst p, rd d (snd p)))
+                                 (filter (fun p => fst p <? blk_count (i_size ip)) leaves);
+                ab_ents := []; ab_parent := parent;
                 ab_atime := i_atime ip; ab_mtime := i_mtime ip; ab_nlink := i_nlink ip |} in
     ({| w_objs := (inum, o) :: w_objs st; w_owned := mine ++ w_owned st;
         w_errs := e1 ++ e0 ++ w_errs st; w_seen := gs_add inum (w_seen st) |}, []).
